@@ -33,12 +33,22 @@ func run(seed int64, n int, dir string, _ []string) {
 
 	// corpus: cancellation at every ctx.Err() call of two-target UPDATE / DELETE statements, for every seed
 	dml.CancelCorpus(g, o, root)
+	// corpus: failures that come after the source query was evaluated, with discarded values poisoned
+	dml.DiscardCorpus(g, o, root)
+	// corpus: COMMIT fails at the k-th context check -> shorter data -> COMMIT again, files against a control run
+	dml.CommitCorpus(g, o, root)
 
 	stmts := 0
 	scanned := false
 	for seq := 0; stmts < n; seq++ {
 		r := dml.NewSequence(g, o, root, seq, true, 400)
 		r.OnlyFailureLaws = true
+		r.Wraps = 20
+		// every second sequence runs with the discarded value objects poisoned (lib/value, build tag verif)
+		r.Poison = dml.SetPoison(seq%2 == 1) && seq%2 == 1
+		if r.Poison {
+			o.Count("sequences_with_poison")
+		}
 		L := 1 + g.Intn(8)
 		abandon := false
 		// cancellation at EVERY position of a multi-target statement (the first time the tables allow it, and
@@ -149,7 +159,15 @@ func run(seed int64, n int, dir string, _ []string) {
 			}
 			if g.Intn(4) == 0 {
 				r.CompareTwin(fmt.Sprintf("step %d", i))
-				r.Commit()
+				if g.Intn(3) == 0 {
+					// a COMMIT that fails at a random context check, then shorter data, then COMMIT again
+					if _, law := r.FailedCommitEpisode(int64(1 + g.Intn(30))); law {
+						abandon = true
+						break steps
+					}
+				} else {
+					r.Commit()
+				}
 			}
 		}
 		if !abandon {
@@ -158,6 +176,7 @@ func run(seed int64, n int, dir string, _ []string) {
 		}
 		r.Close()
 	}
+	dml.SetPoison(false)
 }
 
 func band(n int) int {
